@@ -47,7 +47,7 @@ THttp == Is("Http") /\ E.ok /\ UNCHANGED bv
 \* and the bridge holds no connection to the TCP server any more once all clients are gone
 TFinal == Is("Final") /\ UNCHANGED bv
           /\ (E.judge_close => \A c \in Conns : \A d \in Dirs : first[c] = d => eof[c][d])
-          /\ (\A c \in Conns : \A d \in Dirs : (~closed[c]["up"] /\ ~closed[c]["down"]) => rcvd[c][d] = sent[c][d])
+          /\ (\A c \in Conns : \A d \in Dirs : (first[c] = "" \/ first[c] = d) => rcvd[c][d] = sent[c][d])
           /\ (E.judge_close => E.server_open = 0)
                /\ Step
 TNext == TReset \/ TOpen \/ TWr \/ TRd \/ TPeerClose \/ TPeerEOF \/ THttp \/ TFinal
